@@ -60,6 +60,7 @@ def group_contract(mon, crys, tol=1e-6, prefix='C18'):
     """Evaluated on a constructed Crystal. All clauses are algebraic/exact."""
     G = list(crys.G)
     dim = crys.dim
+    tol = max(tol, 20 * getattr(crys, 'threshold', 0.))  # crystals built with a user threshold (noisy positions)
     L, Linv = crys.lattice, np.linalg.inv(crys.lattice)
     mon.count('crystals_checked')
     mon.count('groupops_checked', len(G))
